@@ -555,7 +555,18 @@ bool qhashtbl_getnext(qhashtbl_t *tbl, qhashtbl_obj_t *obj, const bool newmem) {
     int idx = 0;
     if (obj->name != NULL) {
         idx = (obj->hash % tbl->range) + 1;
-        cursor = obj->next;
+        // follow the link only if it still is in the chain, it could have
+        // been removed since the previous call.
+        if (obj->next != NULL) {
+            qhashtbl_obj_t *chain;
+            for (chain = tbl->slots[idx - 1]; chain != NULL;
+                    chain = chain->next) {
+                if (chain == obj->next) {
+                    cursor = chain;
+                    break;
+                }
+            }
+        }
     }
 
     if (cursor != NULL) {
